@@ -60,6 +60,7 @@ def _run_job(arg):
         import importlib
         from symx import core
         core.reset_stats()
+        core.reset_state()
         mod = importlib.import_module(modname)
         fn = getattr(mod, fname)
         out = fn(*params)
